@@ -95,6 +95,12 @@ fn invariant(cfg: &Cfg, hist: &[Op], o: &Out) -> Result<(), (String, String)> {
 }
 
 fn node(cfg: &Cfg, ops: &[Op], last: &Out, out: &mut JobOut) {
+    node_x(cfg, ops, last, out, "")
+}
+
+/// `suffix` is appended to the failure class (the extreme-magnitude stage has its own classes, so
+/// that a finding listed for it never hides the same kind of failure at ordinary magnitudes)
+fn node_x(cfg: &Cfg, ops: &[Op], last: &Out, out: &mut JobOut, suffix: &str) {
     let hist = since_reset(ops);
     if hist.is_empty() {
         return;
@@ -104,7 +110,7 @@ fn node(cfg: &Cfg, ops: &[Op], last: &Out, out: &mut JobOut) {
         out.stats.nontrivial += 1;
     }
     if let Err((class, exp)) = invariant(cfg, hist, last) {
-        out.fail(Violation::new(PROP, cfg, ops, &class).obs(out2s(last)).exp(exp));
+        out.fail(Violation::new(PROP, cfg, ops, &format!("{}{}", class, suffix)).obs(out2s(last)).exp(exp));
         return;
     }
     // Minimum <= Maximum over the same stream (paired run)
@@ -112,7 +118,7 @@ fn node(cfg: &Cfg, ops: &[Op], last: &Out, out: &mut JobOut) {
         let mx = replay_last(&Cfg::p1(Kind::Max, cfg.p[0]), ops);
         out.stats.transitions += ops.len() as u64;
         if !(last.v[0] <= mx.v[0]) {
-            out.fail(Violation::new(PROP, cfg, ops, "min-above-max").obs(format!("min {} max {}", f2s(last.v[0]), f2s(mx.v[0]))).exp("Minimum <= Maximum on the same stream".into()));
+            out.fail(Violation::new(PROP, cfg, ops, &format!("min-above-max{}", suffix)).obs(format!("min {} max {}", f2s(last.v[0]), f2s(mx.v[0]))).exp("Minimum <= Maximum on the same stream".into()));
         }
     }
 }
@@ -251,6 +257,34 @@ pub fn run(ctx: &Ctx) -> CheckResult {
                     break;
                 }
             }
+            out
+        });
+        res.absorb(merge_jobs(outs));
+    }
+    // LAST: finite inputs at both ends of the f64 range (differences overflow)
+    if !res.out.failed() {
+        let ext = with_reset(s_ops(&S_SIGNED_MAX));
+        let dx = if th { 7 } else { 5 };
+        let mut spaces = vec![];
+        let kinds = [Kind::Sd, Kind::Mad, Kind::Sma, Kind::Wma, Kind::Ema, Kind::Min, Kind::Atr];
+        for n in 1..=4usize {
+            for &k in &kinds {
+                spaces.push(Space { cfg: Cfg::p1(k, n), alphabet: ext.clone(), depth: dx, label: "S_signed_max+reset" });
+            }
+            spaces.push(Space { cfg: Cfg::pm(Kind::Bb, n, 2.0), alphabet: ext.clone(), depth: dx, label: "S_signed_max+reset" });
+            spaces.push(Space { cfg: Cfg::pm(Kind::Kc, n, 2.0), alphabet: ext.clone(), depth: dx, label: "S_signed_max+reset" });
+        }
+        spaces.push(Space { cfg: Cfg::p0(Kind::Tr), alphabet: ext.clone(), depth: dx, label: "S_signed_max+reset" });
+        let mut jobs: Vec<(usize, usize)> = vec![];
+        for (i, s) in spaces.iter().enumerate() {
+            for a in 0..s.alphabet.len() {
+                jobs.push((i, a));
+            }
+        }
+        let outs = par_run(ctx, &jobs, |_, (i, a)| {
+            let sp = &spaces[*i];
+            let mut out = JobOut::default();
+            seq_job(ctx, PROP, &sp.cfg, &sp.alphabet, *a, sp.depth, &mut out, |ops, last, out| node_x(&sp.cfg, ops, last, out, "@extreme-magnitudes"));
             out
         });
         res.absorb(merge_jobs(outs));
